@@ -44,6 +44,10 @@ def drive(sh, prop, cfg, klass, requests=('hit', 'hit2', '404', '405'), shape_on
     sh.hit('constructed' if info['constructed'] else 'rejected')
     if info['constructed']:
         sh.hit('requests-on-accepted', info.get('exchanges', 0))
+        if cfg['route'].get('decoys'):
+            sh.hit('decoy-routes-passed-over')
+        if any(l.get('prefix_bindings') for l in cfg['levels']):
+            sh.hit('prefix-bindings-injected')
         for f in cfg_features(cfg):
             sh.hit('accepted-with:' + f)
     for k, v in stats.items():
